@@ -97,6 +97,17 @@ func (s *gspec) toGo() hcldec.Spec {
 	panic("unknown spec kind " + s.Kind)
 }
 
+// nLabelSpecs: the BlockLabelSpecs placed at this body level.
+func (s *gspec) nLabelSpecs() int {
+	n := 0
+	for _, k := range s.Kids {
+		if k.Kind == "blocklabel" {
+			n++
+		}
+	}
+	return n
+}
+
 func (s *gspec) isBlockKind() bool {
 	switch s.Kind {
 	case "block", "blocklist", "blocktuple", "blockset", "blockmap", "blockobject", "blockattrs":
